@@ -144,7 +144,7 @@ func legC19(e *Engine) []Violation {
 			for j := range w2.segs {
 				w2.segs[j] = &RSeg{err: "unused"}
 			}
-			w2.segs[sg] = &RSeg{seg: s, docnums: w.segs[sg].docnums, isMerge: w.segs[sg].isMerge, wroteOK: true}
+			w2.segs[sg] = &RSeg{seg: s, obs: s, docnums: w.segs[sg].docnums, isMerge: w.segs[sg].isMerge, wroteOK: true}
 			for _, q := range qs {
 				a := guard(10*time.Second, func() string { return w2.exec(q, nil) })
 				answers = append(answers, a)
